@@ -73,22 +73,22 @@ def _zero_only_if(v, nonzero, what):
 # ----------------------------------------------------------------------------- single trainers
 @oracle
 def single_trainer_domain(trainer, y, saliency, opt):
-    sal = None if saliency is None else saliency.copy()
+    sal = None if saliency is None else saliency.copy(order='K')
     try:
         if trainer == 'gaussian':
-            m = dist.GaussianTrainer().fit(y.copy(), saliency=sal, covariance_type=opt['covariance_type'])
+            m = dist.GaussianTrainer().fit(y.copy(order='K'), saliency=sal, covariance_type=opt['covariance_type'])
             if not tu.finite(m.mean):
                 return Fail('gauss-not-finite', 'Gaussian mean contains NaN/Inf')
             return _first(tu.check_gauss_cov(m.covariance, opt['covariance_type']))
         if trainer == 'cgauss':
-            m = dist.ComplexCircularSymmetricGaussianTrainer().fit(y.copy(), saliency=sal)
+            m = dist.ComplexCircularSymmetricGaussianTrainer().fit(y.copy(order='K'), saliency=sal)
             if not tu.finite(m.covariance):
                 return Fail('cgauss-not-finite', 'complex Gaussian covariance contains NaN/Inf')
             if tu.err(m.covariance, tu.herm(m.covariance)) > 1e-9:
                 return Fail('cgauss-not-hermitian', 'complex Gaussian covariance is not Hermitian')
             return None
         if trainer == 'watson':
-            m = dist.ComplexWatsonTrainer(max_concentration=opt['max_concentration']).fit(y.copy(), saliency=sal)
+            m = dist.ComplexWatsonTrainer(max_concentration=opt['max_concentration']).fit(y.copy(order='K'), saliency=sal)
             if not tu.finite(m.mode, m.concentration):
                 return Fail('watson-not-finite', 'Watson parameters contain NaN/Inf')
             c = np.asarray(m.concentration)
@@ -99,7 +99,7 @@ def single_trainer_domain(trainer, y, saliency, opt):
             nz = np.sum(w * np.sum(np.abs(z) ** 2, -1), axis=-1) > 0
             return _first(_unit_or_zero(m.mode, 'watson-mode'), _zero_only_if(m.mode, nz, 'watson-mode'))
         if trainer == 'vmf':
-            m = dist.VonMisesFisherTrainer().fit(y.copy(), saliency=sal, min_concentration=opt['min_concentration'],
+            m = dist.VonMisesFisherTrainer().fit(y.copy(order='K'), saliency=sal, min_concentration=opt['min_concentration'],
                                                  max_concentration=opt['max_concentration'])
             if not tu.finite(m.mean, m.concentration):
                 return Fail('vmf-not-finite', 'vMF parameters contain NaN/Inf')
@@ -113,12 +113,12 @@ def single_trainer_domain(trainer, y, saliency, opt):
             return _first(_unit_or_zero(m.mean, 'vmf-mean'), _zero_only_if(m.mean, nz, 'vmf-mean'))
         if trainer == 'cacg':
             m = dist.ComplexAngularCentralGaussianTrainer().fit(
-                y.copy(), hermitize=opt['hermitize'], covariance_norm=opt['covariance_norm'],
+                y.copy(order='K'), hermitize=opt['hermitize'], covariance_norm=opt['covariance_norm'],
                 eigenvalue_floor=opt['eigenvalue_floor'], iterations=opt['iterations'])
             return _first(tu.check_cacg(m.covariance_eigenvalues, m.covariance_eigenvectors, opt['covariance_norm'],
                                         opt['eigenvalue_floor']))
         if trainer == 'bingham':
-            m = ComplexBinghamTrainer(max_concentration=opt['max_concentration']).fit(y.copy(), saliency=sal)
+            m = ComplexBinghamTrainer(max_concentration=opt['max_concentration']).fit(y.copy(order='K'), saliency=sal)
             return _first(tu.check_bingham(m.covariance_eigenvalues, m.covariance_eigenvectors, opt['max_concentration']))
     except tu.ALLOWED_EXC as e:
         return Skip(f'explicit rejection: {type(e).__name__}')
@@ -128,7 +128,7 @@ def single_trainer_domain(trainer, y, saliency, opt):
 @oracle
 def mixture_weight_domain(affiliation, saliency, weight_constant_axis, eps):
     wca = tu.wca_arg(weight_constant_axis)
-    w = mmu.estimate_mixture_weight(affiliation.copy(), None if saliency is None else saliency.copy(), wca)
+    w = mmu.estimate_mixture_weight(affiliation.copy(order='K'), None if saliency is None else saliency.copy(order='K'), wca)
     # the weight of an index is defined when the saliency sums to a positive value over the tied axes
     if not tu.tied_saliency_positive(affiliation.shape, saliency, wca):
         return Skip('saliency sums to zero over the tied axes for some index')
@@ -139,9 +139,9 @@ def mixture_weight_domain(affiliation, saliency, weight_constant_axis, eps):
 @oracle
 def mixture_domain(model, y, emb, init, saliency, iterations, opt):
     lead = y.ndim == 3
-    sal = None if saliency is None else saliency.copy()
+    sal = None if saliency is None else saliency.copy(order='K')
     try:
-        m = tu.call_mixture(model, y.copy(), init.copy(), sal, iterations, opt, emb)
+        m = tu.call_mixture(model, y.copy(order='K'), init.copy(order='K'), sal, iterations, opt, emb)
     except tu.ALLOWED_EXC as e:
         return Skip(f'explicit rejection: {type(e).__name__}')
     K = init.shape[-2]
@@ -157,7 +157,7 @@ def mixture_domain(model, y, emb, init, saliency, iterations, opt):
         # next scatter underflows, posterior columns can underflow to zero)
         for i in range(1, iterations):
             try:
-                mi = tu.call_mixture(model, y.copy(), init.copy(), sal, i, opt, emb)
+                mi = tu.call_mixture(model, y.copy(order='K'), init.copy(order='K'), sal, i, opt, emb)
             except tu.ALLOWED_EXC:
                 break
             b2 = tu.check_cacg(mi.cacg.covariance_eigenvalues, mi.cacg.covariance_eigenvectors,
